@@ -955,6 +955,14 @@ fn run_case(case: &Value, eng: &Engine) -> Value {
     let compiles = regex::RegexBuilder::new(&stripped).build().map_err(|e| e.to_string());
     if presentable {
         v.insert("compile".into(), match &compiles { Ok(_) => json!(true), Err(e) => json!(e) });
+        // known finding K5: the pattern is valid but larger than the regex crate's DEFAULT size limit (10 MiB);
+        // it compiles once the limit is raised
+        if let Err(e) = &compiles {
+            if e.contains("size limit") {
+                let big = regex::RegexBuilder::new(&stripped).size_limit(1 << 32).dfa_size_limit(1 << 32).build();
+                v.insert("compile_with_raised_limit".into(), json!(big.is_ok()));
+            }
+        }
     }
     // ASCII (C11)
     if f.esc {
